@@ -55,6 +55,26 @@ where
     }
 }
 
+impl<T> Lazy<T> {
+    /// Evaluating `thunk` failed. Restores the thunk so that forcing the value again reports the
+    /// error again (instead of waiting forever on the blackhole) and wakes any waiting threads
+    fn evaluation_failed<F>(&self, thunk: &OwnedFunction<F>)
+    where
+        F: VmType,
+    {
+        let mut lazy_lock = self.value.lock().unwrap();
+        if let Lazy_::Blackhole(_, ref mut waiters) = *lazy_lock {
+            if let Some((sender, _receiver)) = waiters.take() {
+                let _ = sender.send(());
+            }
+        }
+        // SAFETY Rooted by being stored in the lazy value
+        unsafe {
+            *lazy_lock = Lazy_::Thunk(thunk.get_variant().unrooted());
+        }
+    }
+}
+
 impl<T> fmt::Debug for Lazy<T> {
     fn fmt(&self, f: &mut fmt::Formatter) -> fmt::Result {
         write!(f, "Lazy({:?})", *self.value.lock().unwrap())
@@ -121,7 +141,10 @@ fn force(
                         {
                             let value = match lazy.thread.deep_clone_value(&vm, value.get_value()) {
                                 Ok(value) => value,
-                                Err(err) => return RuntimeResult::Panic(err.to_string().into()),
+                                Err(err) => {
+                                    lazy.evaluation_failed(&function);
+                                    return RuntimeResult::Panic(err.to_string().into());
+                                }
                             };
                             let mut lazy_lock = lazy.value.lock().unwrap();
                             match *lazy_lock {
@@ -140,7 +163,10 @@ fn force(
                         value.vm_push(&mut vm.current_context()).unwrap();
                         RuntimeResult::Return(Pushed::default())
                     }
-                    Err(err) => RuntimeResult::Panic(format!("{}", err).into()),
+                    Err(err) => {
+                        lazy.evaluation_failed(&function);
+                        RuntimeResult::Panic(format!("{}", err).into())
+                    }
                 }
             }))
         }
@@ -162,20 +188,21 @@ fn force(
                 }
                 let ready = opt.as_ref().unwrap().1.clone();
                 let vm = vm.root_thread();
-                Either::Right(Either::Right(
-                    ready
-                        .map(move |_| {
-                            let lazy_lock = lazy.value.lock().unwrap();
-                            match *lazy_lock {
-                                Lazy_::Value(ref value) => {
-                                    vm.current_context().push(value);
-                                    Pushed::default()
-                                }
-                                _ => unreachable!(),
-                            }
-                        })
-                        .map(RuntimeResult::Return),
-                ))
+                Either::Right(Either::Right(ready.map(move |_| {
+                    let lazy_lock = lazy.value.lock().unwrap();
+                    match *lazy_lock {
+                        Lazy_::Value(ref value) => {
+                            vm.current_context().push(value);
+                            RuntimeResult::Return(Pushed::default())
+                        }
+                        // The thread evaluating the lazy value failed
+                        _ => RuntimeResult::Panic(
+                            "lazy value failed to evaluate in another thread"
+                                .to_string()
+                                .into(),
+                        ),
+                    }
+                })))
             }
             Lazy_::Value(ref value) => {
                 vm.current_context().push(value);
